@@ -229,6 +229,18 @@ def _pool_entry(arg):
         return ("err", traceback.format_exc())
 
 
+def _die_with_parent():
+    """pool children are killed when the check process goes away (a check that is itself killed - e.g. by a caller's
+    timeout while a kernel never returns - must not leave spinning children behind)"""
+    try:
+        import ctypes
+        import signal
+
+        ctypes.CDLL("libc.so.6", use_errno=True).prctl(1, signal.SIGKILL)  # PR_SET_PDEATHSIG
+    except Exception:  # noqa
+        pass
+
+
 def pool_map(fn, args, nproc=None):
     """Run fn over args in a fork pool (sketchnu already imported and compiled in the parent, so children pay
     nothing).  fn must return a picklable value.  A child that dies (segfault / abort inside a jitted kernel) does
@@ -247,7 +259,7 @@ def pool_map(fn, args, nproc=None):
     res = [None] * len(args)
     lost = []
     stall = float(os.environ.get("VERIF_STALL_S", "2400"))
-    with cf.ProcessPoolExecutor(nproc, mp_context=ctx) as ex:
+    with cf.ProcessPoolExecutor(nproc, mp_context=ctx, initializer=_die_with_parent) as ex:
         futs = {ex.submit(_pool_entry, a): i for i, a in enumerate(args)}
         pending = set(futs)
         while pending:
@@ -272,7 +284,7 @@ def pool_map(fn, args, nproc=None):
                 except BrokenProcessPool:
                     lost.append(i)
     for i in sorted(lost):
-        with cf.ProcessPoolExecutor(1, mp_context=ctx) as ex:
+        with cf.ProcessPoolExecutor(1, mp_context=ctx, initializer=_die_with_parent) as ex:
             try:
                 res[i] = ex.submit(_pool_entry, args[i]).result()
             except BrokenProcessPool:
